@@ -1,3 +1,5 @@
+-- Root of the library: every model, proof and property module (so `lake build` checks them all).
 import FerrousSpec.Model.Bytes
 import FerrousSpec.Model.Resp
 import FerrousSpec.Drv.Resp
+import FerrousSpec.Props.C20
